@@ -195,6 +195,35 @@ def probe(r):
         a.send(sl.frame("BROADCAST", [("id", rid), ("channel", "!m@localhost"), ("length", len(big))], big))
         rep = a.reply(rid) or b""
         check(b"POLICY_VIOLATION" in rep, f"a payload of max_payload_size+1 bytes was answered {rep[:80]}")
+        # a burst of connections that never start the TLS handshake: the process runs out of descriptors (the server sets its
+        # own limit from max_connections) and accept(2) fails for a while; once they are gone the listener must accept again
+        storm = []
+        for _ in range(120):
+            try:
+                storm.append(socket.create_connection(("127.0.0.1", port), timeout=1))
+            except OSError:
+                break
+        stats["storm_sockets"] = len(storm)
+        time.sleep(0.7)
+        for sk in storm:
+            try:
+                sk.close()
+            except OSError:
+                pass
+        time.sleep(1.0)
+        served = None
+        for _ in range(3):
+            try:
+                f = Peer(port)
+                peers.append(f)
+                f.send(sl.frame("CONNECT", [("version", 1), ("heartbeat_interval", 0)]))
+                served = f.line(10)
+                if served is not None:
+                    break
+            except (OSError, ssl.SSLError):
+                time.sleep(1.0)
+        check(served is not None and (served.startswith(b"CONNECT_ACK") or b"SERVER_OVERLOADED" in served),
+              f"after a burst of {len(storm)} connections that exhausted the process's descriptors the listener no longer serves new connections (got {served})")
         # shutdown: everybody still connected is told
         watch = [p for p in (ps["bob"], ps["carol"]) if p]
         proc.send_signal(signal.SIGTERM)
